@@ -40,7 +40,7 @@ class EmbedModel(object):
             raise Inconclusive('_embed no longer takes (outer, inner, use_varargs, use_varkwargs, depth)')
         self.p_outer, self.p_inner = ('P', pos[0]), ('P', pos[1])
         self.params = pos
-        self.interp = Interp(repo, Policy(inline=_no_inline))
+        self.interp = Interp(repo, Policy(inline=_no_inline, split_ifexp='assign-only'))
         self.paths = self.interp.run(self.fi)
         # the merger object: `_Merger(inner, stars_sig)`
         self.merger = None
@@ -183,6 +183,10 @@ def embed_guards(model, p):
                     g[('first_has_default', b[0], proto.kind_at(b[1]))] = pol
                     continue
             unknown.append((atom, pol))
+        elif k == 'isnone' and atom[1][0] == 'S' and atom[1][2][0] == 'K' and model.sides.bucket(atom[1][1]) is not None:
+            # an element of a parameter bucket is a Parameter, never None: the `is None` branch cannot be taken
+            if pol:
+                g['__infeasible__'] = True
         else:
             unknown.append((atom, pol))
     return g, unknown
@@ -194,6 +198,8 @@ def rule_embed_buckets(check, model, rules):
     n = 0
     for p, items in model.ret_paths:
         g, unknown = embed_guards(model, p)
+        if g.get('__infeasible__'):
+            continue
         contents = model.bucket_contents(p)
         gtext = lits_text(p.lits)
         node = [e for e in p.effects if e.kind == 'return'][-1].node
@@ -416,6 +422,8 @@ def rule_embed_flags(check, model, rule):
     n = 0
     for p, ritems in model.ret_paths:
         g, unknown = embed_guards(model, p)
+        if g.get('__infeasible__'):
+            continue
         gtext = lits_text(p.lits)
         node = [e for e in p.effects if e.kind == 'return'][-1].node
         for idx, kind in ((ivp, 'VP'), (ivk, 'VK')):
